@@ -28,7 +28,10 @@ fn canon_value(v: &FluentValue) -> String {
         ),
         FluentValue::Custom(c) => match c.as_any().downcast_ref::<Custom>() {
             Some(c) => format!("c:{}", c.0),
-            None => "c:?".to_string(),
+            None => match c.as_any().downcast_ref::<MemoCustom>() {
+                Some(c) => format!("c:memo:{}", c.0),
+                None => "c:?".to_string(),
+            },
         },
         FluentValue::None => "z".to_string(),
         FluentValue::Error => "e".to_string(),
